@@ -298,6 +298,8 @@ def check(docs):
         fails = []
         if "panic" in o:
             fails.append(("panic", o["panic"], []))
+        if "encode_err" in o:
+            fails.append(("encode-error", "a schema-valid document decodes, but its value (or its successful expansion) does not encode: " + o["encode_err"], []))
         if "rt_err" in o:   # the document does not decode: the property says nothing about it
             res["stats"]["decode_error"] = res["stats"].get("decode_error", 0) + 1
         if "roundtrip" in o:
